@@ -319,7 +319,7 @@ func FormatDataType(dt *ast.DataType) string {
 		if lit, ok := p.(*ast.Literal); ok {
 			if lit.Type == ast.LiteralString {
 				// String parameters in type need extra escaping: 'val' -> \\\'val\\\'
-				params = append(params, fmt.Sprintf("\\\\\\'%s\\\\\\'", lit.Value))
+				params = append(params, fmt.Sprintf("\\\\\\'%s\\\\\\'", escapeStringForTypeParam(fmt.Sprintf("%v", lit.Value))))
 			} else {
 				params = append(params, fmt.Sprintf("%v", lit.Value))
 			}
@@ -344,7 +344,7 @@ func FormatDataType(dt *ast.DataType) string {
 				}
 			} else if fn.Name == "SKIP REGEXP" && len(fn.Arguments) > 0 {
 				if lit, ok := fn.Arguments[0].(*ast.Literal); ok {
-					params = append(params, fmt.Sprintf("SKIP REGEXP \\\\\\'%s\\\\\\'", lit.Value))
+					params = append(params, fmt.Sprintf("SKIP REGEXP \\\\\\'%s\\\\\\'", escapeStringForTypeParam(fmt.Sprintf("%v", lit.Value))))
 				}
 			} else {
 				// General function call (e.g., sumMapFiltered([1, 2]) in AggregateFunction)
